@@ -114,7 +114,23 @@ class Ctx:
 
     # -- helpers
     def func(self, relpath, dotted):
-        f = self.p.func(relpath, dotted)
+        try:
+            f = self.p.func(relpath, dotted)
+        except AnalysisError:
+            # a function the reviewed tree had and this tree has not (inlined into its caller, renamed, moved): the rule that
+            # reads it gives no verdict -- the call-tree comparison reports the same absence.  A function the reviewed tree never
+            # had is a broken rule (exit 2).
+            from . import modref
+            from .pm import Undecided
+            try:
+                m = self.p.module(relpath)
+                tree = modref._tree(m.name)
+            except Exception:
+                tree = None
+            rn = "q__" + dotted.replace(".", "__").replace("<", "").replace(">", "")
+            if tree is not None and any(getattr(n, "name", None) == rn for n in tree.body):
+                raise Undecided("anchor function %s:%s of the reviewed tree is gone (inlined, renamed or moved); this rule does not read where it went" % (relpath, dotted))
+            raise
         self.note("%s:%s" % (relpath, dotted))
         # helpers added since the review are spliced into their caller (sa/expand.py): rules look at one function
         from . import sym
@@ -139,6 +155,37 @@ def load_known():
     return json.load(open(path))["findings"]
 
 
+_DIGESTS = None
+
+
+def changed_files(program):
+    """source files of the package that differ from the reviewed tree (spec/mod/DIGESTS.json, tools/mkdigests.py)"""
+    global _DIGESTS
+    import hashlib
+    if _DIGESTS is None:
+        try:
+            _DIGESTS = json.load(open(os.path.join(VERIF, "spec", "mod", "DIGESTS.json")))
+        except Exception:
+            _DIGESTS = {}
+    out = []
+    seen = set()
+    for dp, dn, fn in os.walk(os.path.join(program.repo, "pycoin")):
+        dn[:] = [d for d in dn if d != "__pycache__"]
+        for f in fn:
+            if f.endswith(".py"):
+                p = os.path.join(dp, f)
+                rel = os.path.relpath(p, program.repo)
+                seen.add(rel)
+                try:
+                    h = hashlib.sha256(open(p, "rb").read()).hexdigest()
+                except Exception:
+                    h = None
+                if _DIGESTS.get(rel) != h:
+                    out.append(rel)
+    out += [r for r in _DIGESTS if r not in seen]
+    return sorted(out)
+
+
 def run_property(pid, obligations, tier, only=None, quiet=False):
     """Evaluate obligations; returns (exit_code, evidence dict)."""
     t0 = time.time()
@@ -153,6 +200,7 @@ def run_property(pid, obligations, tier, only=None, quiet=False):
     known = [k for k in load_known() if k.get("property") == pid]
     viol = 0
     errs = 0
+    changed = None
     known_hit = []
     results = []
     for ob in obligations:
@@ -176,6 +224,14 @@ def run_property(pid, obligations, tier, only=None, quiet=False):
         except Exception as e:  # Unsupported, PyRaise, bugs: never a verdict
             tb = traceback.format_exc().strip().splitlines()
             ob.error = "%s: %s [%s]" % (type(e).__name__, e, tb[-3].strip() if len(tb) >= 3 else "")
+        if ob.error and not ob.findings:
+            # an analysis that cannot run is a broken check on the reviewed tree; on a tree that differs from it the change
+            # moved the code out of what this rule reads: no verdict from it (the call-tree comparison still looks at the change)
+            if changed is None:
+                changed = changed_files(program)
+            if changed:
+                ob.undecided.append("the rule could not read this tree (%s); %d file(s) differ from the reviewed tree, e.g. %s" % (ob.error[:160], len(changed), ", ".join(changed[:3])))
+                ob.error = None
         verdict = HOLDS
         new = []
         for f in ob.findings:
